@@ -22,30 +22,16 @@ theorem slotClass_spec (s : List Nat) :
       if DirSpec.isEndMark s then .endMark else if DirSpec.isFree s then .deleted
       else if DirSpec.isLong s then .lfn else if DirSpec.isLabel s then .volume else .file := rfl
 
-/-! ### the implementation's trailing strip = the specification-side description of it -/
+/-! ### the implementation's cut at the first NUL = the specification's `nameOf` -/
 
-theorem dropWhile_snoc (p : Nat → Bool) (l : List Nat) (x : Nat) :
-    (l ++ [x]).dropWhile p =
-      if (l.dropWhile p).isEmpty then (if p x then [] else [x]) else l.dropWhile p ++ [x] := by
-  induction l with
-  | nil => by_cases h : p x <;> simp [List.dropWhile, h]
-  | cons a l ih =>
-    by_cases h : p a
-    · simp [List.dropWhile, h, ih]
-    · simp [List.dropWhile, h]
-
-theorem stripTrailing_eq_spec (r : List Nat) : stripTrailing r = DirSpec.dropTrailingPads r := by
-  unfold DirSpec.dropTrailingPads
+theorem cutAtNul_eq_spec (r : List Nat) : cutAtNul r = DirSpec.nameOf r := by
+  unfold DirSpec.nameOf
   induction r with
-  | nil => simp [stripTrailing]
+  | nil => rfl
   | cons x xs ih =>
-    simp only [stripTrailing, List.reverse_cons, dropWhile_snoc, ih]
-    have hp : (x == 0 || x == 0xFFFF) = isPad x := rfl
-    simp only [hp, List.isEmpty_reverse]
-    by_cases h1 : (List.dropWhile (fun u => u == 0 || u == 0xFFFF) xs.reverse).isEmpty
-    · have h1' := List.isEmpty_iff.1 h1
-      by_cases h2 : isPad x <;> simp [h1', h2]
-    · simp [h1]
+    by_cases hx : x = 0
+    · simp [cutAtNul, List.takeWhile, hx]
+    · simp [cutAtNul, List.takeWhile, hx, ih]
 
 /-! ### forward machine vs backward scan -/
 
@@ -64,37 +50,37 @@ def capName (t : List Nat) : List Nat := if t.length > 255 then [] else t
 
 def outName : Option (List Nat) → List Nat
   | none => []
-  | some r => capName (stripTrailing r)
+  | some r => capName (cutAtNul r)
 
 theorem truncate_asUnits (alloc : Bool) (b : LongNameBuilder) (hw : WF alloc b) :
-    (truncate alloc b).buf.asUnits = stripTrailing b.buf.asUnits := by
+    (truncate alloc b).buf.asUnits = cutAtNul b.buf.asUnits := by
   obtain ⟨_, _, t3⟩ := truncate_ok alloc b hw
   have hll := WF_len_le alloc b hw
-  rw [← take_stripLen]
+  rw [← take_cutLen]
   simp only [truncate, LfnBuf.setLen]
-  generalize stripLen b.buf.asUnits = m at t3 ⊢
+  generalize cutLen b.buf.asUnits = m at t3 ⊢
   have hm : m ≤ b.buf.units.length := by omega
   cases alloc
   · simp [LfnBuf.asUnits, List.take_take, Nat.min_eq_left t3]
   · simp [LfnBuf.asUnits, resize_of_le _ _ hm, List.take_take, Nat.min_eq_left t3]
 
-/-- a completed run (ordinal 1 reached, checksum of the short name): the live units, stripped, capped -/
+/-- a completed run (ordinal 1 reached, checksum of the short name): the live units cut at the first NUL, capped -/
 theorem finish_complete (alloc : Bool) (b : LongNameBuilder) (n : List Nat) (hw : WF alloc b) (hi : b.index = 1)
-    (hc : b.chksum = lfnChecksum n) : finish alloc b n = capName (stripTrailing b.buf.asUnits) := by
+    (hc : b.chksum = lfnChecksum n) : finish alloc b n = capName (cutAtNul b.buf.asUnits) := by
   obtain ⟨_, t2, _⟩ := truncate_ok alloc b hw
   have v : validateChksum alloc b n = b := by simp [validateChksum, hi, hc]
-  have hslen : (stripTrailing b.buf.asUnits).length = stripLen b.buf.asUnits := rfl
+  have hslen : (cutAtNul b.buf.asUnits).length = cutLen b.buf.asUnits := rfl
   rw [finish, v]
   unfold intoBuf capName
   simp only [hi, if_true, maxNameLen, t2, hslen]
-  by_cases hgt : stripLen b.buf.asUnits > 255
+  by_cases hgt : cutLen b.buf.asUnits > 255
   · simp [hgt, clear, LfnBuf.clear, new_asUnits]
   · simp only [hgt, if_false]
     exact truncate_asUnits alloc b hw
 
 /-- **Main lemma.**  After the long-name slots `Q` (nearest first) and then a tail of ordinals `k-1 … 1`, the name the
     builder (either variant) hands out is what the backward scan finds when it arrives at `Q` expecting ordinal `k`
-    (stripped of trailing padding, dropped if longer than 255). -/
+    (cut at the first `0x0000`, dropped if longer than 255). -/
 theorem run_spec (alloc : Bool) (n : List Nat) (b0 : LongNameBuilder) (h0 : Dead alloc b0) :
     ∀ Q k T, TailOk (lfnChecksum n) T (k - 1) → 1 ≤ k →
       finish alloc (T.foldl (process alloc) (runB alloc b0 Q)) n =
@@ -182,18 +168,24 @@ theorem run_spec (alloc : Bool) (n : List Nat) (b0 : LongNameBuilder) (h0 : Dead
 
 /-! ### the two directory loops -/
 
-/-- the model-side rendering of a specification entry: the implementation's strip-all convention on the run, and its
-    255-unit cap on the stripped name -/
+/-- the model-side rendering of a specification entry: the specification's own long name (`SpecEntry.name`: the units
+    before the first `0x0000` of the complete run, 1 … 255 of them), or no long name -/
 def specToModel (e : DirSpec.SpecEntry) : LfnEntry :=
-  ⟨e.sfn,
-   match e.run with
-   | none => []
-   | some r => if (DirSpec.dropTrailingPads r).length > 255 then [] else DirSpec.dropTrailingPads r,
-   e.beginIdx, e.endIdx⟩
+  ⟨e.sfn, e.name.getD [], e.beginIdx, e.endIdx⟩
 
 theorem specToModel_mk (s : List Nat) (o : Option (List Nat)) (bg en : Nat) :
     specToModel ⟨s, o, bg, en⟩ = ⟨s, outName o, bg, en⟩ := by
-  cases o <;> simp [specToModel, outName, capName, stripTrailing_eq_spec]
+  cases o with
+  | none => simp [specToModel, outName, DirSpec.SpecEntry.name]
+  | some r =>
+    simp only [specToModel, outName, capName, DirSpec.SpecEntry.name, cutAtNul_eq_spec]
+    congr 1
+    by_cases h1 : 1 ≤ (DirSpec.nameOf r).length
+    · by_cases h2 : (DirSpec.nameOf r).length ≤ 255
+      · simp [h1, h2, Nat.not_lt.2 h2]
+      · simp [h2, Nat.lt_of_not_le h2]
+    · have : DirSpec.nameOf r = [] := List.eq_nil_of_length_eq_zero (by omega)
+      simp [this]
 
 theorem readLoop_spec (alloc sv : Bool) : ∀ (slots : List (List Nat)) (idx : Nat) (pend : List (List Nat))
     (b0 : LongNameBuilder), Dead alloc b0 → pend.length ≤ idx →
